@@ -483,6 +483,18 @@ func (s *c12Script) start(c *c12Cmd) {
 			observe = fetch(cl.Store(seqSet(), &imap.StoreFlags{Op: imap.StoreFlagsAdd, Flags: []imap.Flag{imap.FlagSeen}}, nil))
 		case "ustore":
 			observe = fetch(cl.Store(uidSet(), &imap.StoreFlags{Op: imap.StoreFlagsAdd, Flags: []imap.Flag{imap.FlagSeen}}, nil))
+		case "sstore", "usstore", "cstore", "ucstore":
+			// silent STORE; c = with UNCHANGEDSINCE (a CONDSTORE server answers it with FETCH MODSEQ
+			// data, other servers answer .SILENT stores anyway): the data belongs to the command
+			var set imap.NumSet = seqSet()
+			if p[0][0] == 'u' {
+				set = uidSet()
+			}
+			var opts *imap.StoreOptions
+			if strings.HasSuffix(p[0], "cstore") {
+				opts = &imap.StoreOptions{UnchangedSince: 5}
+			}
+			observe = fetch(cl.Store(set, &imap.StoreFlags{Op: imap.StoreFlagsAdd, Silent: true, Flags: []imap.Flag{imap.FlagSeen}}, opts))
 		case "expunge":
 			cmd := cl.Expunge()
 			observe = func() {
@@ -752,7 +764,11 @@ func (s *c12Script) step(ev string) string {
 			if f[2] != "0" {
 				uid = "UID " + f[2] + " "
 			}
-			line = "* " + f[1] + " FETCH (" + uid + "FLAGS " + c12FlagList(f[3]) + ")"
+			modseq := ""
+			if len(f) > 4 {
+				modseq = " MODSEQ (" + f[4] + ")"
+			}
+			line = "* " + f[1] + " FETCH (" + uid + "FLAGS " + c12FlagList(f[3]) + modseq + ")"
 			s.fetchSent++
 		case "c":
 			line = "* OK [CLOSED] previous mailbox closed"
@@ -891,6 +907,9 @@ var c12Corpus = []string{
 	"g:preauth:c;s:sel.0;x:10;t:1:ok:-;s:expunge;e:3;e:3;x:9;t:2:ok:-;s:noop;t:3:ok:-",
 	// tags of different width pending together, answered in reverse order (T9 / T10)
 	"g:preauth:c;s:noop;t:1:ok:-;s:noop;t:2:ok:-;s:noop;t:3:ok:-;s:noop;t:4:ok:-;s:noop;t:5:ok:-;s:noop;t:6:ok:-;s:noop;t:7:ok:-;s:noop;t:8:ok:-;s:noop;s:list;s:stat.1;st:1:4;t:11:ok:-;l:2;t:10:ok:-;t:9:ok:-;s:noop;t:12:ok:-",
+	// FETCH data answering a silent STORE / UID STORE (with and without UNCHANGEDSINCE) belongs to it
+	"g:preauth:c;s:sel.0;x:6;t:1:ok:-;s:sstore.2,3;m:2:0:01;m:5:0:3;m:3:0:0;t:2:ok:-;s:noop;t:3:ok:-",
+	"g:preauth:c;s:sel.0;x:6;t:1:ok:-;s:ucstore.102,104;s:noop;m:4:104:01:9;t:3:ok:-;m:2:102:0:9;t:2:ok:-;s:noop;t:4:ok:-",
 	// F29: after BYE no mailbox is selected
 	"g:preauth:c;s:sel.0;x:3;t:1:ok:-;s:noop;y;s:noop",
 }
@@ -1048,7 +1067,7 @@ func (g *c12G) submit() bool {
 			add("fetch") // not permitted here: refused
 		case 's':
 			add("create", "list", "stat", "append", "srch", "usrch", "esrch", "uesrch", "fetch", "fetch", "ufetch",
-				"store", "ustore", "expunge", "expunge")
+				"store", "ustore", "sstore", "usstore", "cstore", "ucstore", "expunge", "expunge")
 			if len(g.pend) == 0 {
 				add("sel", "sel", "exa")
 			}
@@ -1097,7 +1116,7 @@ func (g *c12G) submit() bool {
 			tok = fmt.Sprintf("%s.%d", k, c.mbox)
 			c.closed = g.state != 's'
 			c.rev1 = g.state == 's' && g.r.chance(1, 4)
-		case "fetch", "store", "ufetch", "ustore":
+		case "fetch", "store", "ufetch", "ustore", "sstore", "usstore", "cstore", "ucstore":
 			c.uid = k[0] == 'u'
 			base := 0
 			if c.uid {
@@ -1305,7 +1324,7 @@ func (g *c12G) data(c *c12GCmd) bool {
 		}
 		// RFC 4731: the response to an extended SEARCH always carries the TAG correlator
 		g.emit(fmt.Sprintf("es:%d:%s:%s", c.tag, b01(c.uid), c12Join(ns, ",")))
-	case "fetch", "store", "ufetch", "ustore":
+	case "fetch", "store", "ufetch", "ustore", "sstore", "usstore", "cstore", "ucstore":
 		var left []int
 		for _, n := range c.set {
 			if !c.given[n] {
@@ -1323,7 +1342,11 @@ func (g *c12G) data(c *c12GCmd) bool {
 		} else if g.r.chance(1, 3) {
 			uid = 100 + n
 		}
-		g.emit(fmt.Sprintf("m:%d:%d:%s", seq, uid, g.flags()))
+		if strings.HasSuffix(c.kind, "cstore") {
+			g.emit(fmt.Sprintf("m:%d:%d:%s:%d", seq, uid, g.flags(), 6+g.r.intn(20))) // with the new MODSEQ
+		} else {
+			g.emit(fmt.Sprintf("m:%d:%d:%s", seq, uid, g.flags()))
+		}
 	case "expunge":
 		if g.state != 's' || g.count == 0 || g.seqCmdPending() || c.data >= 3 {
 			return false
@@ -1364,7 +1387,7 @@ func (g *c12G) countKind(kinds ...string) int {
 	return n
 }
 
-func (g *c12G) seqCmdPending() bool { return g.has("fetch", "store", "srch", "esrch") }
+func (g *c12G) seqCmdPending() bool { return g.has("fetch", "store", "sstore", "cstore", "srch", "esrch") }
 
 // unsolicited sends one unilateral response permitted now; false if none.
 func (g *c12G) unsolicited() bool {
